@@ -54,7 +54,8 @@ def compute_dmdelays(
     delays = dm * DM_CONSTANT_LK * ((freqs**-2) - (ref_freq**-2))
     if in_samples:
         delays = (delays / tsamp).round().astype(np.int32)
-    return delays.squeeze()
+    # A single channel and a scalar DM would otherwise squeeze to a 0-d array
+    return np.atleast_1d(delays.squeeze())
 
 
 def compute_dmsmearing(
